@@ -114,7 +114,7 @@ def qemu_parser_stage(ctx, qemu):
                 want['snapshots'] = max(rec['snaps'], 0)
                 ok = obs == want
         if not ok:
-            ctx.violation({'kind': 'qemu-parser', 'err': rec['err']},
+            ctx.beyond('QemuInfo', {'kind': 'qemu-parser', 'err': rec['err']},
                           {'lines': rec['input'], 'text': text, 'expected': rec, 'observed': repr(obs)},
                           'QemuImgInfo(human) on lines %s: %s, specification %s' % (rec['input'], obs, {k: v for k, v in rec.items() if k != 'input'}))
     ctx.cov['evaluations'] += n
